@@ -16,7 +16,7 @@ ID = 'C13'
 LEVEL = 'exploration'
 REPLAY_DEADLINE = 120
 
-POOL = ['*', 'a', 'a*', '*/', '**', 'a/*', '*/a', '.h', '.*', '[ab]', './a', 'b']
+POOL = ['*', 'a', 'a*', '*/', '**', 'a/*', '*/a', '.h', '.*', '[ab]', './a', 'b', 'a/.*']
 POOL_CASE = ['*', 'a', 'A', '[aA]', 'a*', 'A*', '*/', '**', 'b']
 EXCL = ['a', '*/', '**/a', '.h', 'b*', 'a']
 EXCL_CASE = ['a', 'A*', '*/']
@@ -25,7 +25,7 @@ BASES_CASE = ['GEI', 'GEIQ', 'GEC', 'GEIY']
 
 
 ODD_STATE = ['a', 'a\n', 'b\n', '.h\n', 'd/', 'd/a', 'd/a\n', 'a\\']
-ODD_STATE2 = ['a\n/', 'a\n/a', 'a/', 'a/a\n', 'b', '.h']
+ODD_STATE2 = ['a\n/', 'a\n/a', 'a/', 'a/a\n', 'b', '.h', 'a/\n', 'a/.\n', '.\n']
 
 
 def gl(p, fs, root, **kw):
@@ -129,6 +129,13 @@ def check_state(desc, sc, pool, excl, bases, res, maxn, sh=0, ns=1):
                             continue
                         if 'Q' not in fs and len(pg) != len(set(pg)):
                             res.add_violation(ID, run.viol('duplicate-result', dict(inp0, how='pathlib'), 'no path twice', [os.path.relpath(x, root) for x in pg][:40]))
+                        elif 'I' not in fs or 'C' in fs:
+                            # ... and none lost: the same files as the plain call, in pathlib's spelling
+                            wantp = set(str(WP.Path(root, x)) for x in want)
+                            if set(pg) != wantp:
+                                res.add_violation(ID, run.viol('pathlib-set-differs', dict(inp0, how='pathlib'),
+                                                               sorted(os.path.relpath(x, root) for x in wantp)[:40],
+                                                               sorted(os.path.relpath(x, root) for x in set(pg))[:40]))
     # an absolute pattern followed by relative ones in the same call (root_dir differs from the cwd)
     esc = G.escape(root)
     for rel in (['*/a'], ['a/*'], ['*/*', 'a'], ['**/a'], ['b', '*/b'], ['.h/*']):
@@ -226,6 +233,9 @@ def replay(v):
         elif how == 'pathlib':
             pf = fscommon.gflags(''.join(c for c in fs if c in 'GEDIQCOY'))
             pg = [str(x) for x in WP.Path(root).glob(inc, flags=pf, exclude=exs or None)]
+            if v['kind'] == 'pathlib-set-differs':
+                wantp = set(str(WP.Path(root, x)) for x in expected(model, root, inc, exs, fs))
+                return {'violates': set(pg) != wantp, 'observed': sorted(os.path.relpath(x, root) for x in set(pg))[:40]}
             return {'violates': len(pg) != len(set(pg)), 'observed': [os.path.relpath(x, root) for x in pg][:40]}
         if how == 'negation-only':
             want = []
